@@ -1,7 +1,874 @@
-(* Proofs about the file model (C16). *)
+(* Proofs about the file model (C16): an inductive invariant over all
+   event sequences, and the trace predicate of Spec.v for all traces. *)
 From Coq Require Import Lia ZifyBool ZifyN ZifyNat.
 From VF Require Import File.Model File.Spec.
 Open Scope N_scope.
 
-Lemma open_after_release_stale s m : rc s = 0 -> step s (EOpen m) = (s, OAttrs SStale None).
-Proof. intros H. cbn [step]. rewrite H. reflexivity. Qed.
+(* ---- thread-table lemmas --------------------------------------------------- *)
+
+Definition hb (c : cont) : N := if holds c then 1 else 0.
+
+Lemma nholding_app l1 l2 : nholding (l1 ++ l2) = nholding l1 + nholding l2.
+Proof. induction l1 as [|[k c] tl IH]; cbn [nholding app]; [reflexivity|rewrite IH; lia]. Qed.
+
+Lemma nsleep_app l1 l2 : nsleep (l1 ++ l2) = nsleep l1 + nsleep l2.
+Proof. induction l1 as [|[k c] tl IH]; cbn [nsleep app]; [reflexivity|rewrite IH; lia]. Qed.
+
+Lemma nholding_tset t c c' l :
+  tlookup t l = Some c -> nholding (tset t c' l) + hb c = nholding l + hb c'.
+Proof.
+  induction l as [|[k x] tl IH]; cbn [tlookup tset nholding]; [discriminate|].
+  destruct (k =? t) eqn:E.
+  - intros [= ->]. cbn [nholding]. unfold hb. lia.
+  - intros H. cbn [nholding]. specialize (IH H). lia.
+Qed.
+
+Lemma nholding_tremove t c l :
+  tlookup t l = Some c -> nholding (tremove t l) + hb c = nholding l.
+Proof.
+  induction l as [|[k x] tl IH]; cbn [tlookup tremove nholding]; [discriminate|].
+  destruct (k =? t) eqn:E.
+  - intros [= ->]. unfold hb. lia.
+  - intros H. cbn [nholding]. specialize (IH H). lia.
+Qed.
+
+Lemma tlookup_In t c l : tlookup t l = Some c -> In (t, c) l.
+Proof.
+  induction l as [|[k x] tl IH]; cbn [tlookup]; [discriminate|].
+  destruct (k =? t) eqn:E.
+  - intros [= ->]. left. f_equal. lia.
+  - intros H. right. auto.
+Qed.
+
+Lemma Forall_tset {P : N * cont -> Prop} t c' l :
+  Forall P l -> P (t, c') -> Forall P (tset t c' l).
+Proof.
+  intros H Hc. induction H as [|[k x] tl Hx Htl IH]; cbn [tset]; [constructor|].
+  destruct (k =? t) eqn:E.
+  - constructor; [|exact Htl]. assert (k = t) as -> by lia. exact Hc.
+  - constructor; assumption.
+Qed.
+
+Lemma Forall_tremove {P : N * cont -> Prop} t l : Forall P l -> Forall P (tremove t l).
+Proof.
+  intros H. induction H as [|[k x] tl Hx Htl IH]; cbn [tremove]; [constructor|].
+  destruct (k =? t); [exact Htl|constructor; assumption].
+Qed.
+
+Lemma Forall_snoc {A} (P : A -> Prop) l x : Forall P l -> P x -> Forall P (l ++ [x]).
+Proof. intros H Hx. apply Forall_app. split; [exact H|constructor; [exact Hx|constructor]]. Qed.
+
+Lemma Forall_lookup {P : N * cont -> Prop} t c l : Forall P l -> tlookup t l = Some c -> P (t, c).
+Proof. intros H Hl. apply tlookup_In in Hl. rewrite Forall_forall in H. auto. Qed.
+
+(* ---- the invariant ----------------------------------------------------------- *)
+
+(* what a thread that holds a frozen handle knows about the content *)
+Definition dig_ok (b : list N) (tc : N * cont) : Prop :=
+  match snd tc with
+  | CStore k d => d = DBytes (kfn k) b
+  | CPut d pos recv => (exists fn, d = DBytes fn b) /\ recv = firstn (N.to_nat pos) b /\ pos <= nlen b
+  | CClose k (Some d) => exists fn, d = DBytes fn b
+  | _ => True
+  end.
+
+(* a sleeper's captured channel has been closed whenever its condition holds *)
+Definition gen_ok (ug wg fzv wrv : N) (tc : N * cont) : Prop :=
+  match snd tc with
+  | CMut _ g => g <= ug /\ (fzv = 0 -> g < ug)
+  | CWait _ g => g <= wg /\ (wrv = 0 -> g < wg)
+  | _ => True
+  end.
+
+Record Inv (s : state) : Prop := mkInv {
+  i_rc : rc s = base_links (lay s) (links s) + held_count (held s) + nholding (thr s);
+  i_fz : fz s = nholding (thr s);
+  i_wr : wr s = writers_of (held s);
+  i_cl : closes s = if rc s =? 0 then 1 else 0;
+  i_cac : cac s = 0;
+  i_len : nlen (bytes s) = size s;
+  i_cached : match cached s with None => True | Some d => exists fn, d = DBytes fn (bytes s) end;
+  i_dig : Forall (dig_ok (bytes s)) (thr s);
+  i_gen : Forall (gen_ok (ugen s) (wgen s) (fz s) (wr s)) (thr s) }.
+
+Lemma dig_ok_nohold b b' l : nholding l = 0 -> Forall (dig_ok b) l -> Forall (dig_ok b') l.
+Proof.
+  induction l as [|[k c] tl IH]; intros Hn H; [constructor|].
+  cbn [nholding] in Hn. inversion H as [|? ? Hc Htl]; subst.
+  constructor; [|apply IH; [lia|exact Htl]].
+  unfold dig_ok in *; cbn [snd] in *. destruct c; cbn [holds] in Hn; try lia; exact I.
+Qed.
+
+Lemma gen_ok_mono ug wg fzv wrv ug' wg' fzv' wrv' l :
+  Forall (gen_ok ug wg fzv wrv) l ->
+  ug <= ug' -> wg <= wg' ->
+  (fzv' = 0 -> fzv = 0 \/ ug < ug') ->
+  (wrv' = 0 -> wrv = 0 \/ wg < wg') ->
+  Forall (gen_ok ug' wg' fzv' wrv') l.
+Proof.
+  intros H Hu Hw Hf Hr. eapply Forall_impl; [|exact H].
+  intros [k c]. unfold gen_ok; cbn [snd]. destruct c; auto; intros [H1 H2]; (split; [lia|]); intros E.
+  - destruct (Hf E) as [E'|E']; [specialize (H2 E')|]; lia.
+  - destruct (Hr E) as [E'|E']; [specialize (H2 E')|]; lia.
+Qed.
+
+Lemma init_inv l x sz om : Inv (init l x sz om).
+Proof.
+  constructor; cbn.
+  - destruct l, om as [[]|]; cbn; lia.
+  - reflexivity.
+  - destruct om as [[]|]; reflexivity.
+  - destruct om as [[]|]; reflexivity.
+  - reflexivity.
+  - unfold nlen. rewrite repeat_length. lia.
+  - exact I.
+  - constructor.
+  - constructor.
+Qed.
+
+(* ---- every event preserves the invariant ------------------------------------ *)
+
+Ltac proj :=
+  cbn [lay links hchg rc wr fz size exec cached chg closes calls cac bytes ugen wgen held thr
+       set_links set_hchg set_rc set_wr set_fz set_size set_exec set_cached set_chg set_closes
+       set_calls set_cac set_bytes set_ugen set_wgen set_held set_thr] in *.
+
+Lemma held_count_remove m l h : remove_mask m l = Some h -> held_count l = mcount m + held_count h.
+Proof.
+  revert h. induction l as [|x tl IH]; cbn [remove_mask]; [discriminate|]. intros h.
+  destruct (match x, m with MRead, MRead | MWrite, MWrite | MRW, MRW => true | _, _ => false end) eqn:E.
+  - intros [= <-]. cbn [held_count]. destruct x, m; try discriminate; reflexivity.
+  - destruct (remove_mask m tl) as [r|]; [|discriminate]. intros [= <-].
+    cbn [held_count]. specialize (IH r eq_refl). lia.
+Qed.
+
+Lemma writers_of_remove m l h :
+  remove_mask m l = Some h -> writers_of l = (if mwrite m then 1 else 0) + writers_of h.
+Proof.
+  revert h. induction l as [|x tl IH]; cbn [remove_mask]; [discriminate|]. intros h.
+  destruct (match x, m with MRead, MRead | MWrite, MWrite | MRW, MRW => true | _, _ => false end) eqn:E.
+  - intros [= <-]. cbn [writers_of]. destruct x, m; try discriminate; reflexivity.
+  - destruct (remove_mask m tl) as [r|]; [|discriminate]. intros [= <-].
+    cbn [writers_of]. specialize (IH r eq_refl). lia.
+Qed.
+
+Lemma mcount_pos m : 0 < mcount m.
+Proof. destruct m; cbn; lia. Qed.
+
+Ltac splitifs :=
+  repeat match goal with
+  | |- context [if ?c then _ else _] => let E := fresh "E" in destruct c eqn:E
+  | H : context [if ?c then _ else _] |- _ => let E := fresh "E" in destruct c eqn:E
+  end; try discriminate.
+
+Ltac rfst := cbv beta iota zeta delta [fst].
+
+Ltac fin :=
+  first [ assumption | reflexivity | lia | exact I
+        | (splitifs; lia)
+        | (eapply gen_ok_mono; [eassumption|lia|lia|lia|lia])
+        | (eapply gen_ok_mono; [eassumption|splitifs; lia|splitifs; lia|splitifs; lia|splitifs; lia]) ].
+
+Lemma inv_open s m : Inv s -> Inv (fst (step s (EOpen m))).
+Proof.
+  intros HI. cbn [step]. destruct (rc s =? 0) eqn:E0; rfst; [exact HI|].
+  destruct HI as [H1 H2 H3 H4 H5 H6 H7 H8 H9].
+  unfold acquire. pose proof (mcount_pos m).
+  destruct (mwrite m) eqn:Em; constructor; proj; cbn [held_count writers_of]; rewrite ?Em; fin.
+Qed.
+
+Lemma fcall_eq s : Inv s -> rc s <> 0 -> fcall s = set_calls (calls s + 1) s.
+Proof.
+  intros HI Hr. unfold fcall. proj. rewrite (i_cl s HI).
+  destruct (rc s =? 0) eqn:E; [lia|]. reflexivity.
+Qed.
+
+Lemma inv_set_calls s v : Inv s -> Inv (set_calls v s).
+Proof. intros [H1 H2 H3 H4 H5 H6 H7 H8 H9]. constructor; proj; assumption. Qed.
+
+Lemma inv_fcall s : Inv s -> rc s <> 0 -> Inv (fcall s).
+Proof. intros HI Hr. rewrite (fcall_eq s HI Hr). apply inv_set_calls, HI. Qed.
+
+(* release of n references that the ledger accounts for *)
+Lemma inv_close s m : Inv s -> Inv (fst (step s (EClose m))).
+Proof.
+  intros HI. cbn [step]. destruct (remove_mask m (held s)) as [h|] eqn:Eh; rfst; [|exact HI].
+  destruct HI as [H1 H2 H3 H4 H5 H6 H7 H8 H9].
+  pose proof (held_count_remove _ _ _ Eh) as Hc. pose proof (writers_of_remove _ _ _ Eh) as Hw.
+  pose proof (mcount_pos m).
+  unfold release, fcall. destruct (mwrite m) eqn:Em; proj.
+  all: splitifs; constructor; proj; fin.
+Qed.
+
+Lemma inv_link s : Inv s -> Inv (fst (step s ELink)).
+Proof.
+  intros HI. cbn [step]. destruct (lay s) eqn:El.
+  - destruct (rc s =? 0) eqn:E0; rfst; [exact HI|].
+    destruct HI as [H1 H2 H3 H4 H5 H6 H7 H8 H9]. constructor; proj; rewrite ?El in *; cbn [base_links] in *; fin.
+  - destruct (links s =? 0) eqn:E0; rfst; [exact HI|].
+    destruct HI as [H1 H2 H3 H4 H5 H6 H7 H8 H9]. constructor; proj; rewrite ?El in *; cbn [base_links] in *; fin.
+  - destruct (links s =? 0) eqn:E0; rfst; [exact HI|].
+    destruct HI as [H1 H2 H3 H4 H5 H6 H7 H8 H9]. constructor; proj; rewrite ?El in *; cbn [base_links] in *; fin.
+Qed.
+
+Lemma inv_unlink s : Inv s -> Inv (fst (step s EUnlink)).
+Proof.
+  intros HI. cbn [step]. destruct (links s =? 0) eqn:E0; rfst; [exact HI|].
+  destruct HI as [H1 H2 H3 H4 H5 H6 H7 H8 H9].
+  unfold release, fcall; proj. destruct (lay s) eqn:El; proj; rewrite ?El; proj.
+  all: splitifs; rfst; constructor; proj; rewrite ?El in *; cbn [base_links] in *; fin.
+Qed.
+
+Lemma inv_read s off len fail : Inv s -> Inv (fst (step s (ERead off len fail))).
+Proof.
+  intros HI. cbn [step]. destruct (rc s =? 0) eqn:E0; rfst; [exact HI|].
+  assert (rc s <> 0) by lia.
+  destruct (size s <=? off); [|destruct (size s - off <=? len)].
+  all: destruct (0 <? _); [destruct fail|]; rfst; auto using inv_fcall.
+Qed.
+
+Lemma inv_seek s off rt sc : Inv s -> Inv (fst (step s (ESeek off rt sc))).
+Proof.
+  intros HI. cbn [step]. destruct (rc s =? 0) eqn:E0; rfst; [exact HI|].
+  assert (rc s <> 0) by lia.
+  destruct (size s <=? off); rfst; [exact HI|].
+  destruct sc; [destruct (nlen (bytes (fcall s)) <=? off)| |]; rfst; auto using inv_fcall.
+Qed.
+
+Lemma inv_setattr s p : Inv s -> Inv (fst (step s (ESetAttr p))).
+Proof.
+  intros HI. cbn [step]. destruct (rc s =? 0) eqn:E0; rfst; [exact HI|].
+  destruct p; [|exact HI]. destruct HI as [H1 H2 H3 H4 H5 H6 H7 H8 H9]. constructor; proj; fin.
+Qed.
+
+Lemma nlen_resize n l : nlen (resize n l) = N.of_nat n.
+Proof. unfold nlen, resize. rewrite app_length, firstn_length, repeat_length. lia. Qed.
+
+Lemma nlen_write_at off d l :
+  nlen (write_at off d l) = N.max (nlen l) (N.of_nat off + nlen d).
+Proof.
+  unfold nlen, write_at. rewrite !app_length, firstn_length, skipn_length, !app_length, repeat_length. lia.
+Qed.
+
+Lemma inv_mutate s b sz c g :
+  Inv s -> fz s = 0 -> nlen b = sz ->
+  Inv (set_chg g (set_size sz (set_cached None (set_bytes b (set_calls c s))))).
+Proof.
+  intros [H1 H2 H3 H4 H5 H6 H7 H8 H9] Hz Hl. constructor; proj; try fin.
+  eapply dig_ok_nohold; [|exact H8]. lia.
+Qed.
+
+Lemma inv_acquire s m : Inv s -> rc s <> 0 -> Inv (acquire m s).
+Proof.
+  intros [H1 H2 H3 H4 H5 H6 H7 H8 H9] Hr. unfold acquire. pose proof (mcount_pos m).
+  destruct (mwrite m) eqn:Em; constructor; proj; cbn [held_count writers_of]; rewrite ?Em; fin.
+Qed.
+
+Lemma inv_set_perm s x : Inv s -> Inv (set_chg (chg s + 1) (set_exec x s)).
+Proof. intros [H1 H2 H3 H4 H5 H6 H7 H8 H9]. constructor; proj; fin. Qed.
+
+Lemma vtruncate_inv s sz tf :
+  Inv s -> fz s = 0 -> rc s <> 0 ->
+  Inv (fst (vtruncate sz tf s)) /\ rc (fst (vtruncate sz tf s)) = rc s /\ fz (fst (vtruncate sz tf s)) = 0.
+Proof.
+  intros HI Hz Hr. unfold vtruncate. rewrite (fcall_eq s HI Hr). destruct tf; rfst.
+  - split; [apply inv_set_calls, HI|]. proj. auto.
+  - split; [|proj; auto]. proj. apply inv_mutate; auto. rewrite nlen_resize. lia.
+Qed.
+
+Lemma mut_body_inv s m : Inv s -> fz s = 0 -> Inv (fst (mut_body s m)).
+Proof.
+  intros HI Hz. unfold mut_body. destruct (rc s =? 0) eqn:E0; [exact HI|].
+  assert (Hr : rc s <> 0) by lia.
+  destruct m as [off data wf|mk tf|sz perm tf|off len tf].
+  - rewrite (fcall_eq s HI Hr). proj.
+    set (n := match wf with Some k => N.min k (nlen data) | None => nlen data end).
+    destruct (0 <? n) eqn:En; rfst; [|apply inv_set_calls, HI].
+    set (b := write_at _ _ _).
+    assert (Hb : nlen b = N.max (size s) (off + n)).
+    { unfold b. rewrite nlen_write_at. proj. rewrite (i_len s HI).
+      assert (n <= nlen data) by (unfold n; destruct wf; lia).
+      assert (nlen (firstn (N.to_nat n) data) = n) by (unfold nlen in *; rewrite firstn_length; lia).
+      lia. }
+    destruct (size s <? off + n) eqn:Es; proj.
+    + replace (set_chg (chg s + 1) (set_size (off + n) (set_bytes b (set_cached None (set_calls (calls s + 1) s)))))
+        with (set_chg (chg s + 1) (set_size (off + n) (set_cached None (set_bytes b (set_calls (calls s + 1) s))))) by reflexivity.
+      apply inv_mutate; auto. lia.
+    + replace (set_chg (chg s + 1) (set_bytes b (set_cached None (set_calls (calls s + 1) s))))
+        with (set_chg (chg s + 1) (set_size (size s) (set_cached None (set_bytes b (set_calls (calls s + 1) s))))) by (destruct s; reflexivity).
+      apply inv_mutate; auto. lia.
+  - destruct (vtruncate_inv s 0 tf HI Hz Hr) as (Hi & Hrc & Hfz).
+    destruct (vtruncate 0 tf s) as [s1 ok]. cbn [fst] in *. destruct ok; rfst; [|exact Hi].
+    apply inv_acquire; [exact Hi|lia].
+  - destruct (vtruncate_inv s sz tf HI Hz Hr) as (Hi & Hrc & Hfz).
+    destruct (vtruncate sz tf s) as [s1 ok]. cbn [fst] in *. destruct ok; rfst; [|exact Hi].
+    destruct perm; [apply inv_set_perm, Hi|exact Hi].
+  - destruct (size s <? off + len); [|exact HI].
+    destruct (vtruncate_inv s (off + len) tf HI Hz Hr) as (Hi & Hrc & Hfz).
+    destruct (vtruncate (off + len) tf s) as [s1 ok]. cbn [fst] in *. exact Hi.
+Qed.
+
+Lemma inv_remove_sleeper s t c :
+  Inv s -> tlookup t (thr s) = Some c -> holds c = false -> Inv (set_thr (tremove t (thr s)) s).
+Proof.
+  intros [H1 H2 H3 H4 H5 H6 H7 H8 H9] Hl Hh.
+  pose proof (nholding_tremove _ _ _ Hl) as Hn. unfold hb in Hn. rewrite Hh in Hn.
+  constructor; proj; try fin; apply Forall_tremove; assumption.
+Qed.
+
+Lemma inv_park_mut s t m (fresh : bool) c0 :
+  Inv s -> (0 <? fz s) = true -> (fresh = false -> tlookup t (thr s) = Some c0 /\ holds c0 = false) ->
+  Inv (set_thr (if fresh then thr s ++ [(t, CMut m (ugen s))] else tset t (CMut m (ugen s)) (thr s)) s).
+Proof.
+  intros [H1 H2 H3 H4 H5 H6 H7 H8 H9] Hz Hf.
+  assert (Hg : gen_ok (ugen s) (wgen s) (fz s) (wr s) (t, CMut m (ugen s))) by (unfold gen_ok; cbn [snd]; lia).
+  assert (Hd : dig_ok (bytes s) (t, CMut m (ugen s))) by exact I.
+  destruct fresh.
+  - constructor; proj; rewrite ?nholding_app; cbn [nholding holds]; try fin; apply Forall_snoc; assumption.
+  - destruct (Hf eq_refl) as [Hl Hh]. pose proof (nholding_tset _ _ (CMut m (ugen s)) _ Hl) as Hn.
+    unfold hb in Hn. rewrite Hh in Hn. cbn [holds] in Hn.
+    constructor; proj; try fin; apply Forall_tset; assumption.
+Qed.
+
+Lemma mut_enter_inv s t m (fresh : bool) c0 :
+  Inv s -> (fresh = false -> tlookup t (thr s) = Some c0 /\ holds c0 = false) ->
+  Inv (fst (mut_enter s t m fresh)).
+Proof.
+  intros HI Hf. unfold mut_enter. destruct (0 <? fz s) eqn:Ez; rfst.
+  - eapply inv_park_mut; eauto.
+  - apply mut_body_inv.
+    + destruct fresh; [exact HI|]. destruct (Hf eq_refl). eapply inv_remove_sleeper; eauto.
+    + destruct fresh; proj; lia.
+Qed.
+
+Lemma inv_mut s t m : Inv s -> Inv (fst (step s (EMut t m))).
+Proof.
+  intros HI. cbn [step]. destruct (tlookup t (thr s)); [exact HI|].
+  apply (mut_enter_inv s t m true (CMut m 0)); auto. discriminate.
+Qed.
+
+Lemma inv_wakemut s t : Inv s -> Inv (fst (step s (EWakeMut t))).
+Proof.
+  intros HI. cbn [step]. destruct (tlookup t (thr s)) as [[m g| | | | | | |]|] eqn:El; try exact HI.
+  destruct (g <? ugen s); [|exact HI].
+  apply (mut_enter_inv s t m false (CMut m g)); auto.
+Qed.
+
+(* openReadFrozen *)
+Lemma freeze_now_inv s t k : Inv s -> Inv (fst (freeze_now s t k)).
+Proof.
+  intros HI. unfold freeze_now. destruct (rc s =? 0) eqn:E0; [exact HI|].
+  destruct HI as [H1 H2 H3 H4 H5 H6 H7 H8 H9].
+  destruct k; rfst; constructor; proj; rewrite ?nholding_app; cbn [nholding holds]; try fin;
+    apply Forall_snoc; try assumption; try exact I;
+    try (eapply gen_ok_mono; [eassumption|lia|lia|lia|lia]).
+Qed.
+
+Lemma inv_park_wait s t k (fresh : bool) c0 :
+  Inv s -> (0 <? wr s) = true -> (fresh = false -> tlookup t (thr s) = Some c0 /\ holds c0 = false) ->
+  Inv (set_thr (if fresh then thr s ++ [(t, CWait k (wgen s))] else tset t (CWait k (wgen s)) (thr s)) s).
+Proof.
+  intros [H1 H2 H3 H4 H5 H6 H7 H8 H9] Hz Hf.
+  assert (Hg : gen_ok (ugen s) (wgen s) (fz s) (wr s) (t, CWait k (wgen s))) by (unfold gen_ok; cbn [snd]; lia).
+  assert (Hd : dig_ok (bytes s) (t, CWait k (wgen s))) by exact I.
+  destruct fresh.
+  - constructor; proj; rewrite ?nholding_app; cbn [nholding holds]; try fin; apply Forall_snoc; assumption.
+  - destruct (Hf eq_refl) as [Hl Hh]. pose proof (nholding_tset _ _ (CWait k (wgen s)) _ Hl) as Hn.
+    unfold hb in Hn. rewrite Hh in Hn. cbn [holds] in Hn.
+    constructor; proj; try fin; apply Forall_tset; assumption.
+Qed.
+
+Lemma inv_freeze s t k : Inv s -> Inv (fst (step s (EFreeze t k))).
+Proof.
+  intros HI. cbn [step]. destruct (tlookup t (thr s)); [exact HI|].
+  destruct (0 <? wr s) eqn:Ew; rfst.
+  - apply (inv_park_wait s t k true CHandle); auto. discriminate.
+  - apply freeze_now_inv, HI.
+Qed.
+
+Lemma inv_wakewait s t timeout : Inv s -> Inv (fst (step s (EWakeWait t timeout))).
+Proof.
+  intros HI. cbn [step]. destruct (tlookup t (thr s)) as [[| k g | | | | | |]|] eqn:El; try exact HI.
+  assert (Hrm : Inv (set_thr (tremove t (thr s)) s)) by (eapply inv_remove_sleeper; eauto).
+  destruct timeout; [apply freeze_now_inv, Hrm|].
+  destruct (g <? wgen s); [|exact HI].
+  destruct (0 <? wr s) eqn:Ew; rfst.
+  - apply (inv_park_wait s t k false (CWait k g)); auto.
+  - apply freeze_now_inv, Hrm.
+Qed.
+
+Lemma inv_stat s t fn : Inv s -> Inv (fst (step s (EStat t fn))).
+Proof.
+  intros HI. cbn [step]. destruct (tlookup t (thr s)); [exact HI|].
+  destruct (0 <? wr s); [exact HI|apply freeze_now_inv, HI].
+Qed.
+
+Lemma holding_pos s t c : Inv s -> tlookup t (thr s) = Some c -> holds c = true -> 1 <= nholding (thr s) /\ rc s <> 0.
+Proof.
+  intros HI Hl Hh. pose proof (nholding_tremove _ _ _ Hl) as Hn. unfold hb in Hn. rewrite Hh in Hn.
+  pose proof (i_rc s HI). lia.
+Qed.
+
+Lemma gen_ok_holds ug wg f w t c : holds c = true -> gen_ok ug wg f w (t, c).
+Proof. unfold gen_ok; cbn [snd]. destruct c; cbn [holds]; try discriminate; auto. Qed.
+
+Lemma inv_tset_hold s t c c' :
+  Inv s -> tlookup t (thr s) = Some c -> holds c = true -> holds c' = true ->
+  dig_ok (bytes s) (t, c') -> Inv (set_thr (tset t c' (thr s)) s).
+Proof.
+  intros [H1 H2 H3 H4 H5 H6 H7 H8 H9] Hl Hh Hh' Hd.
+  pose proof (nholding_tset _ _ c' _ Hl) as Hn. unfold hb in Hn. rewrite Hh, Hh' in Hn.
+  constructor; proj; try fin; apply Forall_tset; auto using gen_ok_holds.
+Qed.
+
+Lemma close_frozen_inv s t c :
+  Inv s -> tlookup t (thr s) = Some c -> holds c = true ->
+  Inv (close_frozen (set_thr (tremove t (thr s)) s)).
+Proof.
+  intros HI Hl Hh. destruct (holding_pos s t c HI Hl Hh) as [Hp Hr].
+  pose proof (nholding_tremove _ _ _ Hl) as Hn. unfold hb in Hn. rewrite Hh in Hn.
+  destruct HI as [H1 H2 H3 H4 H5 H6 H7 H8 H9].
+  unfold close_frozen, release, fcall; proj.
+  splitifs; constructor; proj; try fin; try (apply Forall_tremove; assumption).
+  all: apply Forall_tremove; eapply gen_ok_mono; [eassumption|lia|lia|lia|lia].
+Qed.
+
+Lemma firstn_slice {A} a b (l : list A) : firstn a l ++ firstn b (skipn a l) = firstn (a + b) l.
+Proof.
+  revert l. induction a as [|a IH]; intros l; [reflexivity|].
+  destruct l as [|x tl]; cbn [firstn skipn app plus]; [now rewrite firstn_nil|]. now rewrite IH.
+Qed.
+
+Lemma with_digest_ok b t k d : (exists fn, d = DBytes fn b) -> dig_ok b (t, with_digest k d).
+Proof.
+  intros H. unfold dig_ok, with_digest; cbn [snd]. destruct k; auto.
+  split; [exact H|]. split; [reflexivity|lia].
+Qed.
+
+Lemma with_digest_holds k d : holds (with_digest k d) = true.
+Proof. destruct k; reflexivity. Qed.
+
+Lemma inv_run s t a : Inv s -> Inv (fst (run s t a)).
+Proof.
+  intros HI. unfold run.
+  destruct (tlookup t (thr s)) as [c|] eqn:El; [|destruct a; exact HI].
+  destruct c as [m g|k g|k|k|k d|d pos recv|k r|]; destruct a; try exact HI; rfst.
+  - (* CGet, RGet *)
+    eapply inv_tset_hold; eauto.
+    + destruct (cached s) as [[f b|]|]; try reflexivity. destruct (f =? kfn k); [apply with_digest_holds|reflexivity].
+    + pose proof (i_cached s HI) as Hc. destruct (cached s) as [[f b|]|]; try exact I.
+      destruct (f =? kfn k); [|exact I]. apply with_digest_ok. destruct Hc as [fn Hc]. inversion Hc; subst. eauto.
+  - (* CHash, RHash *)
+    destruct (holding_pos s t _ HI El eq_refl) as [_ Hr].
+    destruct (0 <? size s) eqn:Es.
+    + rewrite (fcall_eq s HI Hr). destruct fail; rfst; proj.
+      * eapply (inv_tset_hold (set_calls (calls s + 1) s)); eauto using inv_set_calls. exact I.
+      * eapply (inv_tset_hold (set_calls (calls s + 1) s)); eauto using inv_set_calls.
+        unfold dig_ok; cbn [snd]; proj. f_equal. unfold slice. cbn [skipn].
+        pose proof (i_len s HI) as Hlen. unfold nlen in Hlen.
+        replace (N.to_nat (size s)) with (length (bytes s)) by lia. apply firstn_all.
+    + rfst. eapply inv_tset_hold; eauto. unfold dig_ok; cbn [snd]. f_equal.
+      pose proof (i_len s HI) as Hlen. unfold nlen in Hlen. destruct (bytes s); [reflexivity|cbn [length] in Hlen; lia].
+  - (* CStore, RStore *)
+    pose proof (Forall_lookup _ _ _ (i_dig s HI) El) as Hd. unfold dig_ok in Hd; cbn [snd] in Hd.
+    assert (HI' : Inv (set_cached (Some d) s)).
+    { destruct HI as [H1 H2 H3 H4 H5 H6 H7 H8 H9]. constructor; proj; try fin. eauto. }
+    eapply (inv_tset_hold (set_cached (Some d) s)); eauto using with_digest_holds.
+    apply with_digest_ok. proj. eauto.
+  - (* CPut, RPutRead *)
+    destruct (holding_pos s t _ HI El eq_refl) as [_ Hr].
+    destruct (nlen (dbytes d) <=? pos) eqn:Elim; rfst; [exact HI|].
+    rewrite (fcall_eq s HI Hr). unfold raw_read; proj.
+    pose proof (Forall_lookup _ _ _ (i_dig s HI) El) as Hd. unfold dig_ok in Hd; cbn [snd] in Hd.
+    destruct Hd as ((fn & ->) & Hrecv & Hpos). cbn [dbytes] in *.
+    eapply (inv_tset_hold (set_calls (calls s + 1) s)); eauto using inv_set_calls.
+    unfold dig_ok; cbn [snd]; proj. split; [eauto|].
+    set (m := N.min n (nlen (bytes s) - pos)).
+    assert (Hdl : nlen (slice (N.to_nat pos) (N.to_nat m) (bytes s)) = m).
+    { unfold nlen, slice. rewrite firstn_length, skipn_length. unfold nlen in *. lia. }
+    split; [|lia].
+    rewrite Hdl, Hrecv. unfold slice. rewrite firstn_slice. f_equal. lia.
+  - (* CPut, RPutEnd *)
+    eapply close_frozen_inv; eauto.
+  - (* CClose, RClose *)
+    eapply close_frozen_inv; eauto.
+  - (* CHandle, RFRead *)
+    destruct (holding_pos s t _ HI El eq_refl) as [_ Hr].
+    rewrite (fcall_eq s HI Hr). destruct fail; rfst; [apply inv_set_calls, HI|].
+    destruct (raw_read _ _ _) as [[? ?] ?]. rfst. apply inv_set_calls, HI.
+  - (* RFSeek *)
+    destruct (holding_pos s t _ HI El eq_refl) as [_ Hr].
+    rewrite (fcall_eq s HI Hr). destruct (_ <=? off); rfst; apply inv_set_calls, HI.
+  - (* RFClose *)
+    eapply close_frozen_inv; eauto.
+Qed.
+
+Theorem step_inv s e : Inv s -> Inv (fst (step s e)).
+Proof.
+  destruct e; intros HI.
+  - apply inv_open, HI.
+  - apply inv_close, HI.
+  - apply inv_link, HI.
+  - apply inv_unlink, HI.
+  - apply inv_read, HI.
+  - apply inv_seek, HI.
+  - exact HI.
+  - apply inv_setattr, HI.
+  - exact HI.
+  - apply inv_mut, HI.
+  - apply inv_wakemut, HI.
+  - apply inv_freeze, HI.
+  - apply inv_wakewait, HI.
+  - apply inv_stat, HI.
+  - apply inv_run, HI.
+Qed.
+
+Theorem run_inv es : forall s, Inv s -> Inv (run_events s es).
+Proof. induction es as [|e tl IH]; intros s HI; cbn [run_events]; [exact HI|]. apply IH, step_inv, HI. Qed.
+
+(* ---- the state part of P holds in every reachable state ------------------------ *)
+
+Lemma bytes_eqb_refl l : bytes_eqb l l = true.
+Proof. induction l as [|x tl IH]; cbn; [reflexivity|]. rewrite N.eqb_refl. exact IH. Qed.
+
+Lemma prefix_firstn n l : prefix_eqb (firstn n l) l = true.
+Proof.
+  revert l. induction n as [|n IH]; intros l; [reflexivity|].
+  destruct l as [|x tl]; cbn; [reflexivity|]. rewrite N.eqb_refl. apply IH.
+Qed.
+
+Lemma nstuck_zero ug wg fzv wrv l :
+  Forall (gen_ok ug wg fzv wrv) l -> nstuck (fzv =? 0) (wrv =? 0) ug wg l = 0.
+Proof.
+  induction 1 as [|[k c] tl Hc Htl IH]; [reflexivity|].
+  unfold gen_ok in Hc; cbn [snd] in Hc. cbn [nstuck].
+  destruct c; try exact IH; rewrite IH; destruct Hc as [H1 H2].
+  - destruct (fzv =? 0) eqn:E; cbn [andb]; [|reflexivity]. assert (gen < ug) by (apply H2; lia).
+    destruct (gen <? ug) eqn:E'; [reflexivity|lia].
+  - destruct (wrv =? 0) eqn:E; cbn [andb]; [|reflexivity]. assert (gen < wg) by (apply H2; lia).
+    destruct (gen <? wg) eqn:E'; [reflexivity|lia].
+Qed.
+
+Lemma refs_observe s : Inv s -> refs (observe s) = rc s.
+Proof. intros HI. unfold refs, observe; cbn. rewrite (i_rc s HI). reflexivity. Qed.
+
+Theorem p_obs_ok s : Inv s -> p_obs (observe s) = ""%string.
+Proof.
+  intros HI. unfold p_obs. rewrite (refs_observe s HI).
+  pose proof HI as [H1 H2 H3 H4 H5 H6 H7 H8 H9].
+  unfold observe; cbn [o_closes o_rel o_cac o_size o_bytes o_cached o_lay o_nlink o_links o_stuck attrs a_size a_nlink].
+  rewrite <- H2, <- H3, (nstuck_zero _ _ _ _ _ H9).
+  replace (1 <? closes s) with false by (destruct (rc s =? 0); lia).
+  replace ((0 <? rc s) && (0 <? closes s)) with false by (destruct (rc s =? 0) eqn:E; lia).
+  replace ((rc s =? 0) && (closes s =? 0)) with false by (destruct (rc s =? 0) eqn:E; lia).
+  rewrite N.eqb_refl. cbn [negb]. rewrite H5. cbn [N.ltb N.compare].
+  replace (size s =? nlen (bytes s)) with true by lia. cbn [negb].
+  replace (match cached s with Some d => negb (bytes_eqb (dbytes d) (bytes s)) || dg_eqb d DUnknown | None => false end) with false.
+  2:{ destruct (cached s) as [d|]; [|reflexivity]. destruct H7 as [fn ->]. cbn [dbytes dg_eqb]. now rewrite bytes_eqb_refl. }
+  destruct (lay s); rewrite ?N.eqb_refl; reflexivity.
+Qed.
+
+(* ---- the transition part ---------------------------------------------------------- *)
+
+Ltac brk :=
+  repeat match goal with
+  | |- context [match ?x with _ => _ end] => let E := fresh "B" in destruct x eqn:E
+  end.
+
+(* no event of the model panics *)
+Lemma mut_body_nopanic s m : snd (mut_body s m) <> OPanic.
+Proof. unfold mut_body, stale_out, vtruncate. brk; cbn [snd]; discriminate. Qed.
+
+Lemma step_nopanic s e : snd (step s e) <> OPanic.
+Proof.
+  destruct e; cbn [step]; try (brk; cbn [snd]; discriminate).
+  - destruct (tlookup tid (thr s)); [cbn; discriminate|]. unfold mut_enter. destruct (0 <? fz s); [cbn; discriminate|apply mut_body_nopanic].
+  - destruct (tlookup tid (thr s)) as [[]|]; try (cbn; discriminate). destruct (gen <? ugen s); [|cbn; discriminate].
+    unfold mut_enter. destruct (0 <? fz s); [cbn; discriminate|apply mut_body_nopanic].
+  - unfold freeze_now, fail_out. brk; cbn [snd]; discriminate.
+  - unfold freeze_now, fail_out. brk; cbn [snd]; discriminate.
+  - unfold freeze_now, fail_out. brk; cbn [snd]; discriminate.
+  - unfold run, raw_read. brk; cbn [snd]; discriminate.
+Qed.
+
+Definition same_content (s s' : state) : Prop := bytes s' = bytes s /\ size s' = size s.
+
+Lemma same_refl s : same_content s s. Proof. split; reflexivity. Qed.
+
+Lemma release_same n s : same_content s (release n s).
+Proof. unfold same_content, release, fcall; proj. splitifs; proj; auto. Qed.
+
+Lemma close_frozen_same s : same_content s (close_frozen s).
+Proof. unfold same_content, close_frozen, release, fcall; proj. splitifs; proj; auto. Qed.
+
+Lemma freeze_now_same s t k : same_content s (fst (freeze_now s t k)).
+Proof. unfold same_content, freeze_now. brk; rfst; proj; auto. Qed.
+
+Lemma run_same s t a : same_content s (fst (run s t a)).
+Proof.
+  unfold run.
+  destruct (tlookup t (thr s)) as [c|]; [|destruct a; apply same_refl].
+  destruct c; destruct a; try apply same_refl.
+  all: unfold same_content, close_frozen, release, fcall, raw_read; proj; brk; rfst; proj; auto.
+Qed.
+
+(* events other than the mutating ones never change the content *)
+Lemma step_same_nonmut s e : may_mutate e = false -> same_content s (fst (step s e)).
+Proof.
+  destruct e; cbn [may_mutate]; try discriminate; intros _; cbn [step].
+  - unfold same_content, acquire. brk; rfst; proj; auto.
+  - destruct (remove_mask m (held s)); [|apply same_refl]. rfst.
+    unfold same_content, release, fcall; proj. brk; proj; auto.
+  - unfold same_content. brk; rfst; proj; auto.
+  - destruct (links s =? 0); [apply same_refl|]. unfold same_content, release, fcall; proj. brk; rfst; proj; auto.
+  - unfold same_content, fcall. brk; rfst; proj; auto.
+  - unfold same_content, fcall. brk; rfst; proj; auto.
+  - apply same_refl.
+  - unfold same_content. brk; rfst; proj; auto.
+  - apply same_refl.
+  - destruct (tlookup tid (thr s)); [apply same_refl|]. destruct (0 <? wr s); [split; reflexivity|apply freeze_now_same].
+  - destruct (tlookup tid (thr s)) as [[]|]; try apply same_refl.
+    destruct timeout; [apply (freeze_now_same (set_thr _ s))|].
+    destruct (gen <? wgen s); [|apply same_refl]. destruct (0 <? wr s); [split; reflexivity|apply (freeze_now_same (set_thr _ s))].
+  - destruct (tlookup tid (thr s)); [apply same_refl|]. destruct (0 <? wr s); [apply same_refl|apply freeze_now_same].
+  - apply run_same.
+Qed.
+
+(* while a frozen reader exists, nothing changes the content *)
+Lemma step_same_frozen s e : 0 < fz s -> same_content s (fst (step s e)).
+Proof.
+  intros Hz. destruct (may_mutate e) eqn:Em; [|apply step_same_nonmut, Em].
+  destruct e; try discriminate; cbn [step].
+  - destruct (tlookup tid (thr s)); [apply same_refl|]. unfold mut_enter.
+    destruct (0 <? fz s) eqn:E; [split; reflexivity|lia].
+  - destruct (tlookup tid (thr s)) as [[]|]; try apply same_refl.
+    destruct (gen <? ugen s); [|apply same_refl]. unfold mut_enter.
+    destruct (0 <? fz s) eqn:E; [split; reflexivity|lia].
+Qed.
+
+(* ---- after the last reference is gone ------------------------------------------------ *)
+
+Lemma held_count_zero l : held_count l = 0 -> l = [].
+Proof. destruct l as [|m tl]; [reflexivity|]. cbn [held_count]. pose proof (mcount_pos m). lia. Qed.
+
+Lemma released_facts s : Inv s -> rc s = 0 ->
+  held s = [] /\ nholding (thr s) = 0 /\ links s = 0 /\ fz s = 0 /\ wr s = 0.
+Proof.
+  intros [H1 H2 H3 H4 H5 H6 H7 H8 H9] Hr.
+  assert (Hh : held s = []) by (apply held_count_zero; lia).
+  assert (Hl : links s = 0).
+  { destruct (lay s); cbn [base_links] in H1; [lia| |]; destruct (0 <? links s) eqn:E; lia. }
+  rewrite Hh in H3. cbn in H3. repeat split; auto; lia.
+Qed.
+
+Lemma nohold_lookup t c l : nholding l = 0 -> tlookup t l = Some c -> holds c = false.
+Proof.
+  intros Hn Hl. pose proof (nholding_tremove _ _ _ Hl) as H. unfold hb in H. destruct (holds c); [lia|reflexivity].
+Qed.
+
+Lemma mut_body_released s m : rc s = 0 ->
+  calls (fst (mut_body s m)) = calls s /\ out_ok (snd (mut_body s m)) = false.
+Proof. intros Hr. unfold mut_body. rewrite Hr. cbn [N.eqb fst snd]. destruct m; auto. Qed.
+
+Lemma freeze_now_released s t k : rc s = 0 ->
+  calls (fst (freeze_now s t k)) = calls s /\ out_ok (snd (freeze_now s t k)) = false.
+Proof. intros Hr. unfold freeze_now. rewrite Hr. cbn [N.eqb fst snd]. destruct k; auto. Qed.
+
+Lemma step_released s e : Inv s -> rc s = 0 ->
+  calls (fst (step s e)) = calls s /\ (out_ok (snd (step s e)) = false \/ e = EGetAttr).
+Proof.
+  intros HI Hr. destruct (released_facts s HI Hr) as (Hh & Hn & Hl & Hz & Hw).
+  destruct e; cbn [step]; rewrite ?Hr, ?Hh, ?Hl, ?Hw; cbn [N.eqb N.ltb N.compare remove_mask fst snd]; auto.
+  - destruct (lay s); rewrite ?Hr, ?Hl; cbn; auto.
+  - destruct (tlookup tid (thr s)); [cbn; auto|]. unfold mut_enter. rewrite Hz. cbn [N.ltb N.compare].
+    destruct (mut_body_released s m Hr); auto.
+  - destruct (tlookup tid (thr s)) as [[]|]; try (cbn; auto; fail).
+    destruct (gen <? ugen s); [|cbn; auto]. unfold mut_enter. rewrite Hz. cbn [N.ltb N.compare].
+    destruct (mut_body_released (set_thr (tremove tid (thr s)) s) m Hr); auto.
+  - destruct (tlookup tid (thr s)); [cbn; auto|]. destruct (freeze_now_released s tid k Hr); auto.
+  - destruct (tlookup tid (thr s)) as [[]|]; try (cbn; auto; fail).
+    destruct timeout.
+    + destruct (freeze_now_released (set_thr (tremove tid (thr s)) s) tid k Hr); auto.
+    + destruct (gen <? wgen s); [|cbn; auto].
+      destruct (freeze_now_released (set_thr (tremove tid (thr s)) s) tid k Hr); auto.
+  - destruct (tlookup tid (thr s)); [cbn; auto|]. destruct (freeze_now_released s tid (KSt fn) Hr); auto.
+  - unfold run. destruct (tlookup tid (thr s)) as [c|] eqn:El; [|destruct a; cbn; auto].
+    pose proof (nohold_lookup _ _ _ Hn El) as Hc.
+    destruct c; cbn [holds] in Hc; try discriminate; destruct a; cbn; auto.
+Qed.
+
+(* ---- uploads ------------------------------------------------------------------------- *)
+
+Lemma upload_ok_step s e : Inv s -> upload_ok (snd (step s e)) = true.
+Proof.
+  intros HI. destruct e; cbn [step]; try (brk; reflexivity).
+  - destruct (tlookup tid (thr s)); [reflexivity|]. unfold mut_enter, mut_body, stale_out, vtruncate. brk; reflexivity.
+  - destruct (tlookup tid (thr s)) as [[]|]; try reflexivity. destruct (gen <? ugen s); [|reflexivity].
+    unfold mut_enter, mut_body, stale_out, vtruncate. brk; reflexivity.
+  - unfold freeze_now, fail_out. brk; reflexivity.
+  - unfold freeze_now, fail_out. brk; reflexivity.
+  - unfold freeze_now, fail_out. brk; reflexivity.
+  - unfold run. destruct (tlookup tid (thr s)) as [c|] eqn:El; [|destruct a; reflexivity].
+    destruct c; destruct a; try reflexivity; try (unfold raw_read; brk; reflexivity).
+    destruct ok; [|reflexivity]. cbn [snd upload_ok].
+    pose proof (Forall_lookup _ _ _ (i_dig s HI) El) as Hd. unfold dig_ok in Hd; cbn [snd] in Hd.
+    destruct Hd as ((fn & ->) & -> & Hpos). cbn [dbytes dg_eqb negb andb].
+    destruct (pos =? nlen (bytes s)) eqn:E.
+    + replace (N.to_nat pos) with (length (bytes s)) by (unfold nlen in *; lia).
+      rewrite firstn_all. apply bytes_eqb_refl.
+    + apply prefix_firstn.
+Qed.
+
+(* ---- P holds on every step of the model ------------------------------------------------ *)
+
+Theorem p_step_ok s e : Inv s ->
+  p_step (observe s) e (snd (step s e)) (observe (fst (step s e))) = ""%string.
+Proof.
+  intros HI. pose proof (step_inv s e HI) as HI'.
+  unfold p_step. rewrite (p_obs_ok _ HI'). cbn [String.eqb].
+  unfold p_trans. pose proof (step_nopanic s e) as Hnp.
+  pose proof (i_cl s HI) as Hcl.
+  cbn [observe o_closes o_calls o_fh o_bytes o_size attrs a_size].
+  destruct (rc s =? 0) eqn:Er.
+  - assert (Hr : rc s = 0) by lia. rewrite Hcl. cbn [N.ltb N.compare].
+    destruct (step_released s e HI Hr) as [Hc Ho].
+    destruct (snd (step s e)) eqn:Ex; try congruence; rewrite Hc, N.eqb_refl; cbn [negb];
+      (destruct Ho as [Ho| ->]; [rewrite Ho|]; try reflexivity; rewrite Bool.andb_false_r; reflexivity).
+  - rewrite Hcl. cbn [N.ltb N.compare].
+    assert (Hu := upload_ok_step s e HI).
+    assert (Hsame : (0 <? nholding (thr s)) = true \/ may_mutate e = false -> same_content s (fst (step s e))).
+    { intros [H|H]; [apply step_same_frozen; rewrite (i_fz s HI); lia|apply step_same_nonmut, H]. }
+    destruct (snd (step s e)) eqn:Ex; try congruence; rewrite ?Hu; cbn [negb].
+    all: destruct (0 <? nholding (thr s)) eqn:Eh;
+      [destruct (Hsame (or_introl eq_refl)) as [-> ->]; rewrite bytes_eqb_refl, N.eqb_refl; cbn [andb negb]; rewrite ?Bool.andb_false_r; reflexivity|].
+    all: cbn [andb]; destruct (may_mutate e) eqn:Em; cbn [negb andb]; try reflexivity.
+    all: destruct (Hsame (or_intror eq_refl)) as [-> ->]; rewrite bytes_eqb_refl, N.eqb_refl; reflexivity.
+Qed.
+
+(* ---- the theorems, over all event sequences ---------------------------------------------- *)
+
+Definition reach (l : layer) (x : bool) (sz : N) (om : option mask) (es : list event) : state :=
+  run_events (init l x sz om) es.
+
+Lemma reach_inv l x sz om es : Inv (reach l x sz om es).
+Proof. apply run_inv, init_inv. Qed.
+
+Lemma trace_ok_inv es : forall s, Inv s -> trace_ok (observe s) (trace_of s es) = true.
+Proof.
+  induction es as [|e tl IH]; intros s HI; cbn [trace_of trace_ok]; [reflexivity|].
+  pose proof (p_step_ok s e HI) as Hp. pose proof (step_inv s e HI) as HI'.
+  destruct (step s e) as [s' x]. cbn [fst snd] in *. cbn [trace_ok]. rewrite Hp. cbn. apply IH, HI'.
+Qed.
+
+Lemma trace_all_ok l x sz om es :
+  trace_ok (observe (init l x sz om)) (trace_of (init l x sz om) es) = true.
+Proof. apply trace_ok_inv, init_inv. Qed.
+
+Lemma refcount_exact_l l x sz om es : let s := reach l x sz om es in
+  rc s = base_links (lay s) (links s) + held_count (held s) + nholding (thr s)
+  /\ fz s = nholding (thr s) /\ wr s = writers_of (held s).
+Proof. cbv zeta. pose proof (reach_inv l x sz om es) as [H1 H2 H3 _ _ _ _ _ _]. auto. Qed.
+
+Lemma closes_step s e : Inv s ->
+  closes (fst (step s e)) = closes s + (if negb (rc s =? 0) && (rc (fst (step s e)) =? 0) then 1 else 0).
+Proof.
+  intros HI. pose proof (step_inv s e HI) as HI'.
+  rewrite (i_cl _ HI'), (i_cl _ HI).
+  destruct (rc s =? 0) eqn:E.
+  - (* absorbing: the ledger is empty and nothing can add to it *)
+    assert (Hr : rc s = 0) by lia.
+    enough (rc (fst (step s e)) = 0) as -> by reflexivity.
+    destruct (released_facts s HI Hr) as (Hh & Hn & Hl & Hz & Hw).
+    destruct e; cbn [step]; rewrite ?Hr, ?Hh, ?Hl, ?Hw; cbn [N.eqb N.ltb N.compare remove_mask fst]; auto.
+    + destruct (lay s); rewrite ?Hr, ?Hl; cbn; auto.
+    + destruct (tlookup tid (thr s)); [auto|]. unfold mut_enter, mut_body. rewrite Hz. cbn [N.ltb N.compare]. now rewrite Hr.
+    + destruct (tlookup tid (thr s)) as [[]|]; auto. destruct (gen <? ugen s); auto.
+      unfold mut_enter, mut_body. rewrite Hz. cbn [N.ltb N.compare]. proj. now rewrite Hr.
+    + destruct (tlookup tid (thr s)); [auto|]. unfold freeze_now. now rewrite Hr.
+    + destruct (tlookup tid (thr s)) as [[]|]; auto. unfold freeze_now. proj. rewrite Hr. cbn [N.eqb fst].
+      destruct timeout; [auto|]. destruct (gen <? wgen s); auto.
+    + destruct (tlookup tid (thr s)); [auto|]. unfold freeze_now. now rewrite Hr.
+    + unfold run. destruct (tlookup tid (thr s)) as [c|] eqn:El; [|destruct a; auto].
+      pose proof (nohold_lookup _ _ _ Hn El) as Hc.
+      destruct c; cbn [holds] in Hc; try discriminate; destruct a; auto.
+  - cbn [negb andb]. destruct (rc (fst (step s e)) =? 0); reflexivity.
+Qed.
+
+Lemma closed_once_l l x sz om es e : let s := reach l x sz om es in let s' := fst (step s e) in
+  closes s = (if rc s =? 0 then 1 else 0)
+  /\ closes s' = closes s + (if negb (rc s =? 0) && (rc s' =? 0) then 1 else 0).
+Proof. cbv zeta. pose proof (reach_inv l x sz om es) as HI. split; [apply (i_cl _ HI)|apply closes_step, HI]. Qed.
+
+Lemma no_use_after_release_l l x sz om es e : let s := reach l x sz om es in
+  rc s = 0 ->
+  let s' := fst (step s e) in let out := snd (step s e) in
+  calls s' = calls s /\ cac s' = 0 /\ rc s' = 0 /\ out <> OPanic /\ (out_ok out = false \/ e = EGetAttr).
+Proof.
+  cbv zeta. intros Hr. pose proof (reach_inv l x sz om es) as HI.
+  destruct (step_released _ e HI Hr) as [Hc Ho]. pose proof (step_inv _ e HI) as HI'.
+  pose proof (closes_step _ e HI) as Hcl. rewrite (i_cl _ HI), (i_cl _ HI') in Hcl. rewrite Hr in Hcl. cbn in Hcl.
+  repeat split; auto using step_nopanic, (i_cac _ HI').
+  destruct (rc (fst (step (reach l x sz om es) e)) =? 0) eqn:E; lia.
+Qed.
+
+Lemma frozen_implies_referenced_l l x sz om es : let s := reach l x sz om es in
+  (0 < fz s -> 0 < rc s) /\ (0 < rc s -> closes s = 0) /\ cac s = 0.
+Proof.
+  cbv zeta. pose proof (reach_inv l x sz om es) as [H1 H2 H3 H4 H5 _ _ _ _].
+  repeat split; auto; [lia|]. intros H. destruct (rc _ =? 0) eqn:E; lia.
+Qed.
+
+Lemma upload_digest_l l x sz om es e d err recv complete : let s := reach l x sz om es in
+  snd (step s e) = OUpDone (Some d) err recv complete ->
+  exists fn, d = DBytes fn (bytes s)
+    /\ recv = firstn (length recv) (bytes s)
+    /\ (complete = true -> recv = bytes s).
+Proof.
+  cbv zeta. pose proof (reach_inv l x sz om es) as HI. set (s := reach l x sz om es) in *.
+  destruct e; cbn [step]; try (brk; cbn [snd]; discriminate).
+  - destruct (tlookup tid (thr s)); [cbn; discriminate|]. unfold mut_enter, mut_body, stale_out, vtruncate. brk; cbn [snd]; discriminate.
+  - destruct (tlookup tid (thr s)) as [[]|]; try (cbn; discriminate). destruct (gen <? ugen s); [|cbn; discriminate].
+    unfold mut_enter, mut_body, stale_out, vtruncate. brk; cbn [snd]; discriminate.
+  - unfold freeze_now, fail_out. brk; cbn [snd]; discriminate.
+  - unfold freeze_now, fail_out. brk; cbn [snd]; discriminate.
+  - unfold freeze_now, fail_out. brk; cbn [snd]; discriminate.
+  - unfold run. destruct (tlookup tid (thr s)) as [c|] eqn:El; [|destruct a; cbn; discriminate].
+    destruct c; destruct a; try (cbn; discriminate); try (unfold raw_read; brk; cbn [snd]; discriminate).
+    cbn [snd]. destruct ok; [|discriminate]. intros [= <- _ <- <-].
+    pose proof (Forall_lookup _ _ _ (i_dig s HI) El) as Hd. unfold dig_ok in Hd; cbn [snd] in Hd.
+    destruct Hd as ((fn & ->) & -> & Hpos). exists fn. cbn [dbytes]. split; [reflexivity|].
+    assert (Hlen : length (firstn (N.to_nat pos) (bytes s)) = N.to_nat pos) by (rewrite firstn_length; unfold nlen in *; lia).
+    split; [now rewrite Hlen|].
+    intros E. replace (N.to_nat pos) with (length (bytes s)) by (unfold nlen in *; lia). apply firstn_all.
+Qed.
+
+Lemma frozen_content_stable_l l x sz om es e : let s := reach l x sz om es in
+  0 < fz s -> bytes (fst (step s e)) = bytes s /\ size (fst (step s e)) = size s.
+Proof. cbv zeta. intros H. apply step_same_frozen, H. Qed.
+
+Lemma cache_invalidated_l l x sz om es : let s := reach l x sz om es in
+  nlen (bytes s) = size s /\ (cached s = None \/ exists fn, cached s = Some (DBytes fn (bytes s))).
+Proof.
+  cbv zeta. pose proof (reach_inv l x sz om es) as [_ _ _ _ _ H6 H7 _ _]. split; [exact H6|].
+  destruct (cached _) as [d|]; [right|left; reflexivity]. destruct H7 as [fn ->]. eauto.
+Qed.
+
+(* liveness, as enabledness + progress: a call parked although its wake-up
+   condition holds has had its channel closed; its wake event is enabled and
+   the call does not park again *)
+Lemma wake_enabled_l l x sz om es t : let s := reach l x sz om es in
+  (forall m g, tlookup t (thr s) = Some (CMut m g) -> fz s = 0 ->
+     g < ugen s /\ snd (step s (EWakeMut t)) <> ONone /\ snd (step s (EWakeMut t)) <> OParked)
+  /\ (forall k g, tlookup t (thr s) = Some (CWait k g) -> wr s = 0 ->
+     g < wgen s /\ snd (step s (EWakeWait t false)) <> ONone /\ snd (step s (EWakeWait t false)) <> OParked).
+Proof.
+  cbv zeta. pose proof (reach_inv l x sz om es) as HI. set (s := reach l x sz om es) in *. split.
+  - intros m g El Hz. pose proof (Forall_lookup _ _ _ (i_gen s HI) El) as Hg. unfold gen_ok in Hg; cbn [snd] in Hg.
+    destruct Hg as [_ Hg]. specialize (Hg Hz). split; [exact Hg|].
+    cbn [step]. rewrite El. replace (g <? ugen s) with true by lia. unfold mut_enter. rewrite Hz. cbn [N.ltb N.compare].
+    unfold mut_body, stale_out, vtruncate. split; brk; cbn [snd]; discriminate.
+  - intros k g El Hw. pose proof (Forall_lookup _ _ _ (i_gen s HI) El) as Hg. unfold gen_ok in Hg; cbn [snd] in Hg.
+    destruct Hg as [_ Hg]. specialize (Hg Hw). split; [exact Hg|].
+    cbn [step]. rewrite El. replace (g <? wgen s) with true by lia. rewrite Hw. cbn [N.ltb N.compare].
+    unfold freeze_now, fail_out. split; brk; cbn [snd]; discriminate.
+Qed.
